@@ -1,0 +1,72 @@
+//go:build verif
+
+// Machine-checked contracts for package codec (read by /verif/govc; comments only).
+//
+// C19: decoding is total. Every decode* function is `safe` (no reachable panic) for ANY byte
+// stream: nothing is assumed about what the reader delivers beyond the io.Reader contract.
+// io.LimitReader / (*io.LimitedReader).Read are not abstracted: their real standard-library
+// bodies are executed symbolically (`inline`).
+
+package codec
+
+//@ extern io.LimitReader
+//@   inline
+//@ extern (*io.LimitedReader).Read
+//@   inline
+
+// Assumed contract of the io.Reader interface (documented behaviour of Read).
+//@ extern iface io.Reader.Read
+//@   assigns p[_]
+//@   ensures 0 <= n && n <= len(p)
+//@   ensures len(p) > 0 && err == nil ==> n > 0
+
+//@ extern (*bufio.Reader).Peek
+//@   pure
+//@   ensures err == nil ==> len(result) == n
+//@   ensures err != nil ==> len(result) <= n && len(result) >= 0
+
+//@ extern unicode/utf8.DecodeRune
+//@   pure
+//@   ensures 0 <= size && size <= len(p) && (len(p) > 0 ==> size >= 1)
+
+//@ typeinv codec.Decoder self.fin != nil ==> self.fin.size == 0
+
+//@ func (*Frame).Read [C19]
+//@   requires f != nil && r != nil && f.size >= 0
+//@   safe
+//@   ensures [exact-size] err == nil ==> len(result) == f.size
+//@   loop 1 invariant f != nil && read >= 0 && len(bin) == read && lr.(*io.LimitedReader) != nil && lr.(*io.LimitedReader).N == int64(f.size) - int64(read) && read < f.size
+//@   loop 1 invariant lr.(*io.LimitedReader).R == r && buf != nil && len(deref(buf)) == 512 && f.size == old(f.size)
+//@   loop 1 decreases f.size - read
+
+//@ func bytesToString [C19]
+//@   safe
+//@   loop 1 decreases len(b)
+
+//@ func (*Frame).Encode [C19]
+//@   requires f != nil
+//@   safe
+//@   ensures [header] len(result) == 3 + len(f.buffer) && result[0] == byte(f.frameType)
+//@   ensures [size-field] len(f.buffer) <= 65535 ==> int(result[1])*256 + int(result[2]) == len(f.buffer)
+
+//@ func (*Decoder).nextFrame [C19]
+//@   requires c != nil && c.r != nil
+//@   safe
+//@   ensures [frame] result != nil && result.size >= 0 && result.size <= 65535
+
+//@ func (*Decoder).peekFrame [C19]
+//@   requires c != nil && c.r != nil
+//@   safe
+//@   ensures [frame] result != nil && result.size >= 0 && result.size <= 65535
+
+//@ forall-funcs ^\(\*Decoder\)\.(decode|Decode|peekFrameIs) [C19]
+//@   requires c != nil && c.r != nil
+//@   safe
+
+// decoders that are handed the frame they decode
+//@ forall-funcs ^\(\*Decoder\)\.decode(Expression|Ident|String|RTime|IP|Integer|Float|Boolean|Operator)?$ [C19]
+//@   requires frame != nil && frame.size >= 0 && frame.size <= 65535
+
+// every decoder that returns a node returns one whenever it reports no error
+//@ forall-funcs ^\(\*Decoder\)\.decode([A-NP-Z]\w*)?$ [C19]
+//@   ensures [node-or-error] err == nil ==> nonnil(result)
